@@ -6,8 +6,8 @@
 
 static char SYM[8] = { 'a', 'b', ' ', ',', '"', '\'', '\\', '\t' };        /* --hb=N replaces the second letter by the byte N (0xA0, 0x89: bytes that toascii() turns into blanks) */
 #define NSYM 8
-static const char *DELIMS[5] = { NULL, ",", ", ", ";:|/+=&%#@!~^*?,", ";:|/+=&%#@!~^*?\t" };      /* the last two: 16 delimiters, equal but for the last one */
-#define NDELIMS 5
+static const char *DELIMS[6] = { NULL, ",", ", ", ";:|/+=&%#@!~^*?,", ";:|/+=&%#@!~^*?\t", "\"," };      /* the last one: a quote character that is also a delimiter (outside a quoted stretch it separates) */      /* the last two: 16 delimiters, equal but for the last one */
+#define NDELIMS 6
 static int g_len;
 
 #define MAXTOK 24
@@ -140,12 +140,23 @@ static void case_fn(uint64_t idx, void *ctx)
               for (int i = 0; i < tn && !bad; i++) { spif_str_t ts = SPIF_STR(SPIF_LIST_GET(tl, i)); char r[24]; strcpy(r, ref.t[i]); trim(r); if (strcmp((ts && ts->s) ? (char *) ts->s : "", r)) bad = 1; }
               if (bad) FAIL("spif_tok_done", "model:reuse", shape, "a tokenizer that used other quote/escape characters before done() gives %d tokens that differ from the grammar's %d (delimiters %s)", tn, ref.n, d ? d : "whitespace"); }
           spif_tok_del(u); }
+        /* an evaluation that is refused (the source was taken away) leaves the tokenizer usable: what it reports as tokens can be walked, it can be given a source again */
+        { spif_tok_t r = spif_tok_new_from_ptr((spif_charptr_t) s);
+          if (d) spif_tok_set_sep(r, spif_str_new_from_ptr((spif_charptr_t) hd));
+          spif_tok_eval(r); spif_tok_set_src(r, (spif_str_t) NULL);
+          if (spif_tok_eval(r)) FAIL("spif_tok_eval", "model:not-refused", shape, "eval without a source returned TRUE");
+          spif_list_t tl = spif_tok_get_tokens(r); int tn = tl ? (int) SPIF_LIST_COUNT(tl) : 0;
+          for (int i = 0; i < tn; i++) { spif_str_t ts = SPIF_STR(SPIF_LIST_GET(tl, i)); if (ts && ts->s && strlen((char *) ts->s) > 40) FAIL("spif_tok_eval", "model:token", shape, "a token longer than the input after a refused eval"); }
+          spif_tok_set_src(r, spif_str_new_from_ptr((spif_charptr_t) s));
+          if (!spif_tok_eval(r)) FAIL("spif_tok_eval", "model:return", shape, "eval after the source was given back returned FALSE");
+          else { tl = spif_tok_get_tokens(r); tn = tl ? (int) SPIF_LIST_COUNT(tl) : 0; if (tn != ref.n) FAIL("spif_tok_eval", "model:token-count", shape, "%d tokens after a refused eval and a new source, the grammar gives %d", tn, ref.n); }
+          spif_tok_del(r); }
         /* the same text with the quote, double-quote and escape characters replaced by 0xAB, 0xB4 and 0xA5, given to a tokenizer told to use those: the same tokens, letter for letter */
         { char m[40]; size_t ml = strlen(raw); for (size_t i = 0; i <= ml; i++) m[i] = raw[i] == '\'' ? (char) 0xAB : (raw[i] == '"' ? (char) 0xB4 : (raw[i] == '\\' ? (char) 0xA5 : raw[i]));
           char *hm = mc_heapstr(m);
           spif_tok_t u = spif_tok_new_from_ptr((spif_charptr_t) hm);
           spif_tok_set_quote(u, (char) 0xAB); spif_tok_set_dquote(u, (char) 0xB4); spif_tok_set_escape(u, (char) 0xA5);
-          if (d) spif_tok_set_sep(u, spif_str_new_from_ptr((spif_charptr_t) hd));
+          if (d) { char md[24]; size_t dl = strlen(d); for (size_t i = 0; i <= dl; i++) md[i] = d[i] == '\'' ? (char) 0xAB : (d[i] == '"' ? (char) 0xB4 : (d[i] == '\\' ? (char) 0xA5 : d[i])); spif_tok_set_sep(u, spif_str_new_from_ptr((spif_charptr_t) md)); }      /* the delimiters are part of the text's alphabet: mapped with it */
           if (!spif_tok_eval(u)) FAIL("spif_tok_eval", "model:return", shape, "eval with quote/escape characters above 0x7f returned FALSE");
           else { spif_list_t tl = spif_tok_get_tokens(u); int tn = tl ? (int) SPIF_LIST_COUNT(tl) : 0, bad = tn != ref.n;
               for (int i = 0; i < tn && !bad; i++) { spif_str_t ts = SPIF_STR(SPIF_LIST_GET(tl, i)); char r[24]; strcpy(r, ref.t[i]); trim(r);
